@@ -14,14 +14,15 @@ import (
 func init() {
 	register(&Property{
 		ID:    "C09",
-		Rules: []string{"C09-R1", "C09-R2", "C09-R3", "C09-R4", "C09-R5", "C09-R6", "C09-R7", "C09-R8"},
+		Rules: []string{"C09-R1", "C09-R2", "C09-R3", "C09-R4", "C09-R5", "C09-R6", "C09-R7", "C09-R8", "C10-R2"},
 		Explain: "Decides how malformed entries reach the user: C09-R1 the line number is a loop-carried counter with 0 on entry and the same φ+1 on every back edge of the Scan loop (so blank, comment and note lines are counted); " +
 			"C09-R2 the quoted line is the raw Scanner.Text() result; C09-R3 every ParseCallback of the tree, given an error, stops with an error deriving from it or prints it and continues; " +
 			"C09-R4 lint writes its success message exactly when no malformed line was reported (and not silent); " +
 			"C09-R5 an error callback that does not stop leaves the open record in place, so every later malformed line of the record is still reported; " +
 			"C09-R6 the Error() text of ErrorBadSyntax and ErrorConversion contains Line unaltered (%s/%v/concatenation, not %q or a truncating verb) and LineNumber in decimal; " +
 			"C09-R7 the line classification table (C04-R1) gives every malformed line its error event on every occurrence; " +
-			"C09-R8 the commands' file helper hands the parser the opened file itself, not a filtered or rewritten stream, so physical line numbers are the file's.",
+			"C09-R8 the commands' file helper hands the parser the opened file itself, not a filtered or rewritten stream, so physical line numbers are the file's; " +
+			"C10-R2 (shared) the error the parser returns — a positioned error handed back by a callback as much as a read error — reaches the result of every command on every path (no deferred flush overwrites it).",
 		NotDecided: "the wording of the messages beyond containing the line and its number, and the arithmetic of what counts as a number (strconv.ParseFloat)",
 		Run: func(c *core.Ctx) {
 			ruleLineCounter(c, "C09-R1")
@@ -30,6 +31,16 @@ func init() {
 			ruleLintVerdict(c, "C09-R4")
 			ruleErrorText(c, "C09-R6")
 			ruleFileReaders(c, "C09-R8")
+			// "every command that reads the file fails": what the parser returns (a positioned error a callback handed
+			// back, like a read error) reaches the command's result on every path
+			runErrorFlow(c, "C10-R2", func(cal *ssa.Function, ci ssa.CallInstruction) (bool, string) {
+				if cal != nil {
+					if w, ok := inputSeeds[cal.String()]; ok {
+						return true, w
+					}
+				}
+				return false, ""
+			})
 		},
 	})
 }
